@@ -30,6 +30,8 @@ import VsgProofs.Lemmas.ProgLayout
 import VsgProofs.Lemmas.ProgPrims
 import VsgProofs.Lemmas.ProgPrimsLayout
 import VsgProofs.Lemmas.ProgChain
+import VsgProofs.Lemmas.ProgIfChain
+import VsgProofs.Lemmas.ProgDetect
 import VsgModel.Prog.NavCheck
 import VsgModel.Generated.ClassifyTables
 -- <<< WP1b layer P
@@ -963,3 +965,129 @@ example : ∃ k fd steps, funIdx "classify.architecture_body.classify_opening_de
 
 end Vsgm.C05
 -- <<< WP1c layer P, stage 2
+
+-- >>> WP1d layer P: lifting for chains WITH conditionals on utils.is_next_token
+namespace Vsgm.C05
+open Vsgm Vsgm.Classify Vsgm.Prog
+
+abbrev genIs : Nat := isNextIdx Gen.Prog.progTable
+
+theorem genSys_isNext (S : Sys) (T : ClassTables) (hG : GenSys S T) :
+    S.funs[genIs]? = some (isNextTokenDef genSig.kFind genSig.kOvi) := by
+  obtain ⟨k, kF, kO, a, f, o, b⟩ := progTable_is_next_token
+  have hI : genIs = k := by
+    have : genIs = (funIdx "utils.is_next_token" Gen.Prog.progTable).getD 0 := rfl
+    rw [this, a]; rfl
+  have hF : genSig.kFind = kF := by
+    have : genSig.kFind = (funIdx "utils.find_next_token" Gen.Prog.progTable).getD 0 := rfl
+    rw [this, f]; rfl
+  have hO : genSig.kOvi = kO := by
+    have : genSig.kOvi = (funIdx "utils.object_value_is" Gen.Prog.progTable).getD 0 := rfl
+    rw [this, o]; rfl
+  rw [hI, hF, hO, hG.get, b]
+
+/-- **lifting, partial (chains with conditionals)**: for EVERY function of the generated table that the decoder recognises
+    as `iCurrent = iToken / helper(…)`, `if [not] utils.is_next_token("x", iCurrent, lObjects): … [else: …]` (nested),
+    `return iCurrent`, the interpreted call computes `icmdSpec`: the fold of the helpers' specifications, every branch
+    chosen by the hand model `isNextToken` — generic over the program, by induction on its structure -/
+theorem prog_ifchain_call_partial (S : Sys) (T : ClassTables) (hG : GenSys S T) (k : Nat) (fd : FunDef) (c : ICmd)
+    (hk : genFuns[k]? = some fd) (hd : decodeIfChain genSig genIs fd = some c) (L i : Nat) (st : State)
+    (hfuel : st.toks.size + c.depth < L + 4) (hL : c.depth ≤ L)
+    (hsteps : st.steps + c.cost * (st.toks.size + 5) + 2 < S.maxSteps)
+    (hdepth : st.depth + 2 < S.maxDepth) (hreq : IReq S T c (st.toks, i)) :
+    ∃ st', (run S (L + 13)).call k [.int i, .toks] st = (icmdRes (icmdSpec S T c (st.toks, i)), st')
+      ∧ st'.frame = st.frame ∧ st'.depth = st.depth
+      ∧ (∀ b a n, icmdSpec S T c (st.toks, i) = .ok (b, (a, n)) → st'.toks = a) := by
+  obtain ⟨hfd, hwf⟩ := decodeIfChain_sound genSig genIs fd c hd
+  exact call_ifchain S T genSig (genSys_tie S T hG) genIs (genSys_isNext S T hG) k L c (by rw [hG.get, hk, hfd]) hwf i st
+    hfuel hL hsteps hdepth hreq
+
+/-- **layout blindness, partial (chains with conditionals)**: two calls of the same such function on states with the same
+    raw-item view at corresponding positions take the SAME branches and end in the same exception, or in token lists with
+    the same raw-item view and corresponding returned indices (`IRel`) — `LayoutBlindCall` for this fragment (view / rank
+    of raw items; a raw item in front of every helper step and condition reached; no `required` step failing;
+    resources sufficient) -/
+theorem prog_ifchain_layout_partial (S : Sys) (T : ClassTables) (hG : GenSys S T) (k : Nat) (fd : FunDef) (c : ICmd)
+    (hk : genFuns[k]? = some fd) (hd : decodeIfChain genSig genIs fd = some c) (L i j : Nat) (st st' : State)
+    (hv : view (isRaw T) st.toks.toList = view (isRaw T) st'.toks.toList)
+    (hr : rank (isRaw T) st.toks.toList i = rank (isRaw T) st'.toks.toList j)
+    (hfol : IFol S T c (st.toks, i))
+    (hfuel : st.toks.size + c.depth < L + 4) (hL : c.depth ≤ L)
+    (hsteps : st.steps + c.cost * (st.toks.size + 5) + 2 < S.maxSteps)
+    (hdepth : st.depth + 2 < S.maxDepth) (hreq : IReq S T c (st.toks, i))
+    (hfuel' : st'.toks.size + c.depth < L + 4)
+    (hsteps' : st'.steps + c.cost * (st'.toks.size + 5) + 2 < S.maxSteps)
+    (hdepth' : st'.depth + 2 < S.maxDepth) (hreq' : IReq S T c (st'.toks, j)) :
+    ∃ (r r' : Except Err (Bool × Cfg)) (s1 s1' : State),
+      (run S (L + 13)).call k [.int i, .toks] st = (icmdRes r, s1) ∧
+      (run S (L + 13)).call k [.int j, .toks] st' = (icmdRes r', s1') ∧ IRel T r r' := by
+  obtain ⟨s1, h1, _⟩ := prog_ifchain_call_partial S T hG k fd c hk hd L i st hfuel hL hsteps hdepth hreq
+  obtain ⟨s1', h1', _⟩ := prog_ifchain_call_partial S T hG k fd c hk hd L j st' hfuel' hL hsteps' hdepth' hreq'
+  exact ⟨_, _, s1, s1', h1, h1', icmdSpec_layout S T c (st.toks, i) (st'.toks, j) hv hr hfol⟩
+
+/-- the chains with conditionals of the generated table, by name.  It is ONE function: every other production with an
+    `if utils.is_next_token(…)` also calls another production (`process_sensitivity_list.classify`, `expression.classify_until`,
+    `utils.tokenize_label`, …) inside or around the conditional and is therefore outside the fragment -/
+def progIfChains : List String := ["classify.entity_aspect.classify"]
+
+theorem progTable_ifchains : ifChainNames Gen.Prog.progTable = progIfChains := by decide +kernel
+
+set_option maxRecDepth 20000 in
+/-- non-vacuity: `entity_aspect.classify` decodes (`iCurrent = iToken`, then `open` / `configuration` / `entity`
+    nested three deep with an optional `( architecture )`) -/
+example : ∃ k fd c, funIdx "classify.entity_aspect.classify" Gen.Prog.progTable = some k
+    ∧ genFuns[k]? = some fd ∧ decodeIfChain genSig genIs fd = some c ∧ c.hasIte = true ∧ c.depth = 4 :=
+  ⟨_, _, _, by rfl, by rfl, by rfl, by rfl, by rfl⟩
+
+end Vsgm.C05
+-- <<< WP1d layer P
+
+-- >>> WP1d layer P, detectors
+namespace Vsgm.C05
+open Vsgm Vsgm.Classify Vsgm.Prog
+
+/-- **lifting, partial (detectors)**: every function of the generated table of the shape
+    `if utils.is_next_token("x", iToken, lObjects): return True` (repeated) `return False` computes `detectSpec` -/
+theorem prog_detect_call_partial (S : Sys) (T : ClassTables) (hG : GenSys S T) (k : Nat) (fd : FunDef) (strs : List Str)
+    (hk : genFuns[k]? = some fd) (hd : decodeDetectFun genIs fd = some strs) (m i : Nat) (st : State)
+    (hfuel : st.toks.size < m + 4) (hsteps : st.steps + strs.length * (st.toks.size + 5) + 2 < S.maxSteps)
+    (hdepth : st.depth + 2 < S.maxDepth) :
+    ∃ st', (run S (m + 12)).call k [.int i, .toks] st = (boolRes (detectSpec S T strs i st.toks.toList), st')
+      ∧ st'.toks = st.toks ∧ st'.frame = st.frame ∧ st'.depth = st.depth :=
+  call_detect S T genIs genSig.kFind genSig.kOvi (genSys_isNext S T hG) (genSys_tie S T hG).find (genSys_tie S T hG).ovi k m strs
+    (by rw [hG.get, hk, decodeDetectFun_sound genIs fd strs hd]) i st hfuel hsteps hdepth
+
+/-- **layout blindness, partial (detectors)**: the same answer (or the same exception) at corresponding positions of two
+    token lists with the same raw-item view, in front of a raw item; the token lists are untouched -/
+theorem prog_detect_layout_partial (S : Sys) (T : ClassTables) (hG : GenSys S T) (k : Nat) (fd : FunDef) (strs : List Str)
+    (hk : genFuns[k]? = some fd) (hd : decodeDetectFun genIs fd = some strs) (m i j : Nat) (st st' : State)
+    (hv : view (isRaw T) st.toks.toList = view (isRaw T) st'.toks.toList)
+    (hr : rank (isRaw T) st.toks.toList i = rank (isRaw T) st'.toks.toList j)
+    (hex : rank (isRaw T) st.toks.toList i < (view (isRaw T) st.toks.toList).length)
+    (hfuel : st.toks.size < m + 4) (hsteps : st.steps + strs.length * (st.toks.size + 5) + 2 < S.maxSteps)
+    (hdepth : st.depth + 2 < S.maxDepth)
+    (hfuel' : st'.toks.size < m + 4) (hsteps' : st'.steps + strs.length * (st'.toks.size + 5) + 2 < S.maxSteps)
+    (hdepth' : st'.depth + 2 < S.maxDepth) :
+    ∃ (r : Except Err Val) (s1 s1' : State),
+      (run S (m + 12)).call k [.int i, .toks] st = (r, s1) ∧
+      (run S (m + 12)).call k [.int j, .toks] st' = (r, s1') ∧ s1.toks = st.toks ∧ s1'.toks = st'.toks := by
+  obtain ⟨s1, h1, t1, _⟩ := prog_detect_call_partial S T hG k fd strs hk hd m i st hfuel hsteps hdepth
+  obtain ⟨s1', h1', t1', _⟩ := prog_detect_call_partial S T hG k fd strs hk hd m j st' hfuel' hsteps' hdepth'
+  rw [← detectSpec_layout S T strs st.toks.toList st'.toks.toList i j hv hr hex] at h1'
+  exact ⟨_, s1, s1', h1, h1', t1, t1'⟩
+
+/-- the detectors of the generated table, by name -/
+def progDetectors : List String :=
+  ["classify.condition_clause.detect", "classify.resolution_indication.detect_element_resolution",
+   "classify.sensitivity_clause.detect", "classify.subprogram_kind.detect", "classify.timeout_clause.detect"]
+
+theorem progTable_detectors : detectNames Gen.Prog.progTable = progDetectors := by decide +kernel
+
+set_option maxRecDepth 20000 in
+/-- non-vacuity: `subprogram_kind.detect` decodes to the two checks `procedure`, `function` -/
+example : ∃ k fd strs, funIdx "classify.subprogram_kind.detect" Gen.Prog.progTable = some k
+    ∧ genFuns[k]? = some fd ∧ decodeDetectFun genIs fd = some strs ∧ strs.length = 2 :=
+  ⟨_, _, _, by rfl, by rfl, by rfl, by rfl⟩
+
+end Vsgm.C05
+-- <<< WP1d layer P, detectors
